@@ -1,25 +1,233 @@
 (* Property C03 - the ledger is a function of the main chain alone (reorganisations are exact).
-   Statements only; proofs in Proofs/Pointwise.v, Proofs/NodeBasics.v. *)
-From Virel Require Import Lib.Config Lib.U64 Lib.AMap Model.Emission Model.Ledger Model.Node
-  Proofs.Conservation Proofs.Pointwise Proofs.NodeBasics.
+   Statements only; proofs in Proofs/Pointwise.v, Proofs/Undo.v (transactions of every kind, staker reward),
+   Proofs/Undo2.v (lists of transactions, blocks), Proofs/Undo3.v (the same up to the order of the funds of a pool),
+   Proofs/Undo4.v (the invariants along chains, several blocks), Proofs/UndoRefuted.v (counterexamples),
+   Proofs/NodeBasics.v. *)
+From Virel Require Import Lib.Config Lib.U64 Lib.AMap Gen.Params Model.Emission Model.Ledger Model.Node
+  Proofs.Emission Proofs.Conservation Proofs.Pointwise Proofs.StakedSum Proofs.NodeBasics
+  Proofs.Undo Proofs.Undo2 Proofs.Undo3 Proofs.Undo4 Proofs.UndoRefuted.
 Open Scope N_scope.
 
-(* FULL STATEMENT (lemma B of DESIGN.md): for every block and every ledger on which it applies, disconnecting it again
-   restores the accounts, the delegate records and the staked total. *)
+Theorem C03_cfg_ok_mainnet : cfg_ok_emission cfg_mainnet = true. Proof. vm_compute. reflexivity. Qed.
+Theorem C03_cfg_ok_testnet : cfg_ok_emission cfg_testnet = true. Proof. vm_compute. reflexivity. Qed.
+Theorem C03_cfg_ok_unittest : cfg_ok_emission cfg_unittest = true. Proof. vm_compute. reflexivity. Qed.
+Theorem C03_cfg_ok_verifnet : cfg_ok_emission cfg_verifnet = true. Proof. vm_compute. reflexivity. Qed.
+
+(* FULL STATEMENT as first written (lemma B of DESIGN.md): for every block and every ledger on which it applies,
+   disconnecting it again restores the accounts, the delegate records and the staked total.
+   In this literal, hypothesis-free form it is FALSE of the model (and of the Go code the model transcribes):
+   C03_undo_block_full_refuted below.  The reason that matters: the undo of an unstake that emptied a fund re-creates
+   the fund at the END of the pool's fund list, so a pool's record comes back with its funds in another order
+   (chaintype.Delegate.SortFunds is never called).  Kept as the reference statement. *)
 Definition C03_undo_block_full : Prop := forall cfg genesis_addr l b top_h l1,
   apply_block cfg genesis_addr l b top_h = Ok l1 ->
   exists l2, remove_block cfg genesis_addr l1 b top_h = Ok l2 /\ same_accounts l2 l /\
              (forall id, get_dlg l2 id = get_dlg l id) /\ staked l2 = staked l.
 
-(* PROVED PARTS, each for ALL ledgers and all values:
-   - undoing the outputs of a transaction / of a coinbase without staker reward restores every account exactly;
-   - undoing the inputs restores every account exactly;
-   - undoing a whole transfer transaction (ApplyTxToState then RemoveTxFromState) restores every account, the delegate
-     table and the staked total.
-   MISSING for the full statement: the same composition for the four staking-related kinds and for the staker reward
-   (their delegate-record bookkeeping), and the lifting from transactions to blocks.  Those are covered by the
-   correspondence run (model = implementation on generated reorganisations) together with the implementation-side
-   check "a fresh node fed only the final main chain has the same ledger" (Check/C03.v), not by a theorem. *)
+Theorem C03_undo_block_full_refuted : ~ C03_undo_block_full.
+Proof. exact undo_block_full_refuted. Qed.
+Print Assumptions C03_undo_block_full_refuted.
+
+(* The hypotheses under which the statement is PROVED, for all configurations with a sound emission schedule, all
+   ledgers and all blocks (no bound on sizes):
+     SInv l        delegate table in database-key order, filed under its ids, staked total = sum of all funds < 2^64
+                   (kept by every operation: Props/C01.v);
+     FPos l        no fund with amount 0 (a fund that reaches 0 is dropped; stakes are >= MIN_STAKE_AMOUNT; the
+                   rounding remainder of a non-zero staker reward is >= 1% of it);
+     FUniq l       the funds of a pool have distinct owners (a fund is appended only for an owner without one);
+     room for the block reward below the maximum supply (holds along every chain: Props/C01.v);
+     tx_ok         uint64-typed amounts and an overflow-free total (what Transaction.Prevalidate checks, code 212);
+     stake_pos     staked amounts > 0 (check 210 of prevalidate_tx: amount >= MIN_STAKE_AMOUNT > 0);
+     the transaction ids of the block are pairwise distinct and differ from the block hash (they are hashes of
+                   different contents; the delegate history is keyed by both);
+     the per-address counters (incoming count, nonce) do not wrap within the block.
+   [top'] (stats.TopHeight when the block is disconnected) is arbitrary: reorg_disconnect of Model/Node.v passes the
+   block's own height = top_h + 1, where top_h (the parent's height) is what apply_block_node / reorg_connect pass
+   when the block is connected (after the repair R8 TopHeight follows the chain); the removal never reads it because
+   the unlock height of a re-created fund comes from the delegate history. *)
+Definition C03_block_hyps : config -> ledger -> lblock -> Prop := block_hyps.
+
+(* PROVED: the full statement with the delegate records compared up to the order of their funds
+   (dperm: same id, owner, name, and the funds are a permutation: same owners, amounts, unlock heights).
+   This is also how the implementation-side check compares pools (Check/C03.v looks funds up by owner). *)
+Definition C03_undo_block_upto_fund_order : Prop := forall cfg genesis_addr l b top_h l1,
+  C03_block_hyps cfg l b ->
+  apply_block cfg genesis_addr l b top_h = Ok l1 ->
+  forall top', exists l2, remove_block cfg genesis_addr l1 b top' = Ok l2 /\ same_accounts l2 l /\
+    (forall id, match get_dlg l id, get_dlg l2 id with
+                | Some d, Some d' => dperm d d'
+                | None, None => True
+                | _, _ => False
+                end) /\ staked l2 = staked l.
+
+Theorem C03_undo_block : C03_undo_block_upto_fund_order.
+Proof. exact undo_block_upto_fund_order. Qed.
+Print Assumptions C03_undo_block.
+
+(* PROVED: the full statement exactly as written (delegate records equal, even the table as a list) when in addition
+   every unstake of the block that empties a fund empties the LAST fund of its pool ([unstakes_last], evaluated on
+   the ledgers the transactions are applied to) - in particular for blocks without a full unstake. *)
+Theorem C03_undo_block_exact_partial : forall cfg genesis_addr l b top_h l1,
+  C03_block_hyps cfg l b ->
+  unstakes_last cfg l (lb_txs b) (lb_height b) (lb_hash b) top_h ->
+  apply_block cfg genesis_addr l b top_h = Ok l1 ->
+  forall top', exists l2, remove_block cfg genesis_addr l1 b top' = Ok l2 /\ same_accounts l2 l /\
+    dlgs l2 = dlgs l /\ (forall id, get_dlg l2 id = get_dlg l id) /\ staked l2 = staked l.
+Proof. exact undo_block_exact. Qed.
+Print Assumptions C03_undo_block_exact_partial.
+
+(* The block theorems in the form needed to chain them (several blocks disconnected in a row): the removal starts
+   from ANY ledger that agrees with the result of the application on accounts, delegate table and staked total
+   (leqv_p: up to fund order; leqv: exactly) and on the delegate-history entries of this block; the wallet indexes
+   and the other delegate-history entries may differ (they do after an undo: stale entries stay and are overwritten
+   by the next application before they are read). *)
+Theorem C03_undo_block_general : forall cfg genesis_addr l b top_h lB,
+  C03_block_hyps cfg l b ->
+  apply_block cfg genesis_addr l b top_h = Ok lB ->
+  forall l' top', leqv_p lB l' ->
+    (forall k, k = lb_hash b \/ In k (map tx_id (lb_txs b)) -> nget (dhist l') k = nget (dhist lB) k) ->
+    exists l2, remove_block cfg genesis_addr l' b top' = Ok l2 /\ leqv_p l l2 /\ dhist l2 = dhist l'.
+Proof. exact undo_block_general. Qed.
+Print Assumptions C03_undo_block_general.
+
+(* ---- the invariants are not assumptions about reachable ledgers: they hold along every chain ---- *)
+(* PInv l = SInv l /\ FPos l /\ FUniq l holds for the empty ledger and is kept by ApplyBlockToState (transactions of
+   every kind and the staker reward: its rounding remainder is at least 1% of a non-zero reward), hence holds after
+   every chain of blocks applied to the empty ledger (heights 1, 2, ... and the scheduled supply as in Props/C01.v) *)
+Theorem C03_invariants_initial : PInv ledger0.
+Proof. exact PInv0. Qed.
+Print Assumptions C03_invariants_initial.
+
+Theorem C03_invariants_chain : forall cfg genesis_addr, cfg_ok_emission cfg = true ->
+  forall bs l (h : nat) l',
+  total_bal l = sum_rewards cfg h -> heights_from h bs ->
+  Forall (fun b => Forall (tx_ok cfg) (lb_txs b) /\ Forall stake_pos (lb_txs b)) bs -> PInv l ->
+  apply_chain cfg genesis_addr l bs = Ok l' -> PInv l'.
+Proof. exact apply_chain_PInv. Qed.
+Print Assumptions C03_invariants_chain.
+
+(* stake_pos is what stateless validation guarantees when MIN_STAKE_AMOUNT > 0 *)
+Theorem C03_prevalidate_stake_pos : forall cfg team_key t h,
+  0 < min_stake cfg -> prevalidate_tx cfg team_key t h = Ok tt -> stake_pos t.
+Proof. exact prevalidate_stake_pos. Qed.
+Print Assumptions C03_prevalidate_stake_pos.
+
+(* ---- several blocks: what a reorganisation disconnects ---- *)
+(* the blocks of a chain segment connected lowest first (TopHeight = the parent's height) and then disconnected highest
+   first (TopHeight = the block's own height, as reorg_disconnect does), starting from any ledger that agrees with
+   the tip ledger: accounts, staked total and delegate records (up to fund order) are back to what they were below
+   the segment.  chain_keys = the hashes of the blocks and the ids of their transactions, pairwise distinct. *)
+Theorem C03_undo_chain : forall cfg genesis_addr, cfg_ok_emission cfg = true ->
+  forall bs l (h : nat) ln,
+  total_bal l = sum_rewards cfg h -> heights_from h bs -> PInv l ->
+  Forall (fun b => Forall (tx_ok cfg) (lb_txs b) /\ Forall stake_pos (lb_txs b)) bs ->
+  NoDup (chain_keys bs) ->
+  (forall a, inc (acct_at l a) + chain_nouts bs < two64) ->
+  (forall a, nonce (acct_at l a) + chain_ntx bs < two64) ->
+  apply_chain cfg genesis_addr l bs = Ok ln ->
+  forall l', leqv_p ln l' -> (forall k, In k (chain_keys bs) -> nget (dhist l') k = nget (dhist ln) k) ->
+  exists l2, remove_chain cfg genesis_addr l' (rev bs) = Ok l2 /\ leqv_p l l2 /\ dhist l2 = dhist l'.
+Proof. exact undo_chain. Qed.
+Print Assumptions C03_undo_chain.
+
+(* ---- transactions: RemoveTxFromState after ApplyTxToState, all five kinds and the mismatching version bytes ---- *)
+(* exact form (same conclusion as the transfer theorem below) *)
+Theorem C03_undo_tx : forall cfg l t h bh top_h l1 tot,
+  SInv l -> FPos l -> total_bal l < two64 -> wf_tx cfg t -> tx_total cfg t = Some tot ->
+  (forall a, inc (acct_at l a) + tx_nouts t < two64) ->
+  nonce (acct_at l (addr_of_key (tx_signer t))) + 1 < two64 ->
+  unstake_last l t ->
+  apply_tx cfg l t h bh top_h = Ok l1 ->
+  forall top', exists l2, remove_tx cfg l1 t bh top' = Ok l2 /\ same_accounts l2 l /\ dlgs l2 = dlgs l /\ staked l2 = staked l.
+Proof. exact remove_apply_tx. Qed.
+Print Assumptions C03_undo_tx.
+
+(* up to fund order, without the side condition on full unstakes, from any agreeing ledger *)
+Theorem C03_undo_tx_upto_fund_order : forall cfg l t h bh top_h l1 tot,
+  SInv l -> FPos l -> FUniq l -> total_bal l < two64 -> wf_tx cfg t -> tx_total cfg t = Some tot ->
+  (forall a, inc (acct_at l a) + tx_nouts t < two64) ->
+  nonce (acct_at l (addr_of_key (tx_signer t))) + 1 < two64 ->
+  apply_tx cfg l t h bh top_h = Ok l1 ->
+  forall l' top', leqv_p l1 l' -> nget (dhist l') (tx_id t) = nget (dhist l1) (tx_id t) ->
+  exists l2, remove_tx cfg l' t bh top' = Ok l2 /\ leqv_p l l2 /\ dhist l2 = dhist l'.
+Proof. exact undo_tx_perm. Qed.
+Print Assumptions C03_undo_tx_upto_fund_order.
+
+(* what exactly the undo of an unstake produces: the pool's funds with the signer's fund moved to the end when the
+   unstake had emptied it (with its amount and its saved unlock height), unchanged otherwise *)
+Theorem C03_undo_unstake_exact_result : forall cfg l amt id signer top txid l1 d f,
+  SInv l -> amt < two64 ->
+  get_dlg l id = Some d -> find_fund (d_funds d) signer = Some f ->
+  (f_amt f = amt -> find_fund (upd_fund (d_funds d) signer None) signer = None) ->
+  apply_unstake l amt id signer top txid false 0 = Ok l1 ->
+  forall l' top', dlgs l' = dlgs l1 -> staked l' = staked l1 -> nget (dhist l') txid = nget (dhist l1) txid ->
+  exists l2, apply_stake cfg l' amt id 0 signer top' txid true = Ok l2 /\
+    dlgs l2 = dins (dlgs l) id (mkdlg (d_id d) (d_owner d) (d_name d)
+                 (if f_amt f =? amt then upd_fund (d_funds d) signer None ++ [f] else d_funds d)) /\
+    staked l2 = staked l /\ accts l2 = accts l' /\ dhist l2 = dhist l'.
+Proof. exact undo_unstake_gen. Qed.
+Print Assumptions C03_undo_unstake_exact_result.
+
+(* the staker reward: RemovePosReward after ApplyPosReward restores the delegate table and the staked total
+   (the delegate history keeps the saved record) *)
+Theorem C03_undo_pos_reward : forall l bh o l1,
+  SInv l -> o_amt o < two64 -> apply_pos_reward l bh o = Ok l1 ->
+  forall l', dlgs l' = dlgs l1 -> staked l' = staked l1 -> nget (dhist l') bh = nget (dhist l1) bh ->
+  exists l2, remove_pos_reward l' bh o = Ok l2 /\
+    dlgs l2 = dlgs l /\ staked l2 = staked l /\ accts l2 = accts l' /\ dhist l2 = dhist l'.
+Proof. exact undo_pos_reward. Qed.
+Print Assumptions C03_undo_pos_reward.
+
+(* lists of transactions: applied in order, removed in reverse order *)
+Theorem C03_undo_txs : forall cfg txs l h bh top fee ln fee',
+  SInv l -> FPos l -> FUniq l -> total_bal l < two64 ->
+  Forall (tx_ok cfg) txs -> Forall stake_pos txs -> NoDup (map tx_id txs) ->
+  (forall a, inc (acct_at l a) + nouts_sum txs < two64) ->
+  (forall a, nonce (acct_at l a) + N.of_nat (length txs) < two64) ->
+  apply_txs cfg l txs h bh top fee = Ok (ln, fee') ->
+  forall l' top', leqv_p ln l' ->
+    (forall t, In t txs -> nget (dhist l') (tx_id t) = nget (dhist ln) (tx_id t)) ->
+    exists l2, remove_txs cfg l' (rev txs) bh top' = Ok l2 /\ leqv_p l l2 /\ dhist l2 = dhist l'.
+Proof. exact undo_txs_perm. Qed.
+Print Assumptions C03_undo_txs.
+
+Theorem C03_undo_txs_exact_partial : forall cfg txs l h bh top fee ln fee',
+  SInv l -> FPos l -> total_bal l < two64 -> Forall (tx_ok cfg) txs -> Forall stake_pos txs -> NoDup (map tx_id txs) ->
+  (forall a, inc (acct_at l a) + nouts_sum txs < two64) ->
+  (forall a, nonce (acct_at l a) + N.of_nat (length txs) < two64) ->
+  unstakes_last cfg l txs h bh top ->
+  apply_txs cfg l txs h bh top fee = Ok (ln, fee') ->
+  forall l' top', leqv ln l' ->
+    (forall t, In t txs -> nget (dhist l') (tx_id t) = nget (dhist ln) (tx_id t)) ->
+    exists l2, remove_txs cfg l' (rev txs) bh top' = Ok l2 /\ leqv l l2 /\ dhist l2 = dhist l'.
+Proof. exact undo_txs. Qed.
+Print Assumptions C03_undo_txs_exact_partial.
+
+(* ---- counterexamples (unittest configuration; every other hypothesis of the theorems holds) ---- *)
+(* a full unstake of a fund that is not the last of its pool: the pool comes back with its funds reordered *)
+Theorem C03_undo_unstake_order_refuted :
+  SInv wit_ledger /\ FPos wit_ledger /\ total_bal wit_ledger < two64 /\
+  wf_tx cfg_unittest wit_tx /\ tx_total cfg_unittest wit_tx = Some 100 /\
+  apply_tx cfg_unittest wit_ledger wit_tx 5 99 4 = Ok wit_l1 /\
+  remove_tx cfg_unittest wit_l1 wit_tx 99 5 = Ok wit_l2 /\
+  get_dlg wit_ledger 7 = Some (mkdlg 7 9 0 [mkfund 3 100 0; mkfund 5 50 0]) /\
+  get_dlg wit_l2 7 = Some (mkdlg 7 9 0 [mkfund 5 50 0; mkfund 3 100 0]) /\
+  get_dlg wit_l2 7 <> get_dlg wit_ledger 7.
+Proof. exact undo_unstake_order_refuted. Qed.
+Print Assumptions C03_undo_unstake_order_refuted.
+
+(* FPos cannot be dropped: staking into a fund of amount 0 and undoing the stake drops the fund (no reachable ledger
+   has such a fund) *)
+Theorem C03_undo_stake_zero_fund_refuted :
+  SInv zero_ledger /\ total_bal zero_ledger < two64 /\ wf_tx cfg_unittest zero_tx /\
+  apply_tx cfg_unittest zero_ledger zero_tx 5 99 4 = Ok zero_l1 /\
+  remove_tx cfg_unittest zero_l1 zero_tx 99 5 = Ok zero_l2 /\
+  get_dlg zero_l2 7 = Some (mkdlg 7 9 0 [mkfund 5 50 0]) /\
+  get_dlg zero_l2 7 <> get_dlg zero_ledger 7.
+Proof. exact undo_stake_zero_fund_refuted. Qed.
+Print Assumptions C03_undo_stake_zero_fund_refuted.
+
+(* ---- the account part alone (Proofs/Pointwise.v) ---- *)
 Theorem C03_undo_outputs : forall outs l bh txid l1,
   no_pos outs -> total_bal l + sum_souts outs < two64 ->
   (forall a, inc (acct_at l a) + out_cnt outs a < two64) ->
@@ -36,7 +244,8 @@ Theorem C03_undo_inputs : forall ins l l1,
 Proof. exact remove_apply_inputs. Qed.
 Print Assumptions C03_undo_inputs.
 
-Theorem C03_undo_transfer_partial : forall cfg l t outs0 h bh top_h l1 tot,
+(* transfers (special case of C03_undo_tx without the staking invariants) *)
+Theorem C03_undo_transfer : forall cfg l t outs0 h bh top_h l1 tot,
   tx_data t = TTransfer outs0 ->
   total_bal l < two64 -> wf_tx cfg t -> tx_total cfg t = Some tot ->
   (forall a, inc (acct_at l a) + N.of_nat (length outs0) < two64) ->
@@ -44,10 +253,17 @@ Theorem C03_undo_transfer_partial : forall cfg l t outs0 h bh top_h l1 tot,
   apply_tx cfg l t h bh top_h = Ok l1 ->
   exists l2, remove_tx cfg l1 t bh top_h = Ok l2 /\ same_accounts l2 l /\ dlgs l2 = dlgs l /\ staked l2 = staked l.
 Proof. exact remove_apply_transfer. Qed.
-Print Assumptions C03_undo_transfer_partial.
+Print Assumptions C03_undo_transfer.
 
 (* a refused block or reorganisation changes nothing *)
 Theorem C03_reject_unchanged : forall cfg genesis_addr team_key n b now n' c amb,
   deliver cfg genesis_addr team_key n b now = (n', Rejected c, amb) -> n' = n.
 Proof. exact deliver_rejected_unchanged. Qed.
 Print Assumptions C03_reject_unchanged.
+
+(* STILL MISSING for "the ledger is a function of the main chain alone" as a theorem about the node:
+   that connecting the blocks of the other branch from a ledger that agrees up to fund order (what C03_undo_chain
+   delivers at the common ancestor) yields ledgers that agree up to fund order with those of a node that applied the
+   main chain only (ApplyBlockToState respects leqv_p: the lottery, the reward split and the fund lookups do not depend
+   on the order of the funds), and the composition with check_reorgs of Model/Node.v.  That half remains covered by the
+   implementation-side comparison with a fresh node (Check/C03.v), which compares the funds of a pool by owner. *)
